@@ -11,7 +11,7 @@ Extraction "model.ml"
   gk_skip
   val_eqb vdepth
   has_type env_ok zero_of fresh apply_init lookup_sd
-  denote encode_spec absorb_top absorb need skipped_depth norm norm_top enums32 req_complete holders_empty
+  denote encode_spec absorb_top absorb need skipped_depth norm norm_top enums32 req_complete holders_empty init_ok prior_ok
   append_struct encoded_size encode_object
   decode_object decode_struct
   resolve_fields build_env accepted accepted_with resolve_universe parse_type_top lookup_struct_tag
